@@ -17,6 +17,7 @@ func init() { register("C19", checkC19) }
 func checkC19(c *Check) {
 	p := c.P
 	c.decodePrefixRules("C19.1 prefix")
+	c.specConstants("C19.3 spec-constants", "NOTIF_CODE_UPDATE_MESSAGE_ERR", "NOTIF_SUBCODE_MALFORMED_ATTR_LIST", "NOTIF_SUBCODE_UNRECOGNIZED_WELL_KNOWN_ATTR", "NOTIF_SUBCODE_MISSING_WELL_KNOWN_ATTR", "NOTIF_SUBCODE_ATTR_FLAGS_ERR", "NOTIF_SUBCODE_ATTR_LEN_ERR", "NOTIF_SUBCODE_INVALID_ORIGIN_ATTR", "NOTIF_SUBCODE_INVALID_NEXT_HOP_ATTR", "NOTIF_SUBCODE_OPTIONAL_ATTR_ERR", "NOTIF_SUBCODE_INVALID_NETWORK_FIELD", "NOTIF_SUBCODE_MALFORMED_AS_PATH", "PATH_ATTR_MP_REACH_NLRI", "PATH_ATTR_MP_UNREACH_NLRI", "AFI_IPV4", "AFI_IPV6", "SAFI_UNICAST")
 	c.prefixLoops("C19.1 prefix-lists")
 	c.nlriWrappers("C19.2 wrappers")
 	c.mpSplitters("C19.3 mp-splitters")
